@@ -2,6 +2,7 @@ package checks
 
 import (
 	"bytes"
+	"context"
 	"crypto/sha256"
 	"fmt"
 	"io"
@@ -11,6 +12,8 @@ import (
 
 	"github.com/ipfs/go-cid"
 	unixfsnode "github.com/ipfs/go-unixfsnode"
+	"github.com/ipfs/go-unixfsnode/file"
+	"github.com/ipfs/go-unixfsnode/hamt"
 	"github.com/ipfs/go-unixfsnode/iter"
 	dagpb "github.com/ipld/go-codec-dagpb"
 	"github.com/ipld/go-ipld-prime/datamodel"
@@ -223,6 +226,23 @@ func (c17) Run(ts *tape.Set, tier Tier) *Result {
 		}
 		root = gen.WritePlainDir(st, ents, sizes, shape.Intn(2) == 0)
 		sc.Node, sc.Spec = "plain-dir", fmt.Sprintf("entries=%d", n)
+		dupPick, dupAt := shape.Intn(3), shape.Raw()
+		if n >= 16 && dupPick == 0 {
+			// the name most lookups ask for appears a second time, further on,
+			// with another target: a name resolves to the FIRST link carrying
+			// it, whatever else was looked up on the node before
+			var links []gen.NamedLink
+			for _, nm := range names {
+				links = append(links, gen.NamedLink{Name: nm, Cid: ents[nm]})
+			}
+			hot := names[len(names)/2]
+			dup := gen.NamedLink{Name: hot, Cid: gen.EntryTarget(st, "second link named "+hot)}
+			at := len(links)/2 + 1 + int(dupAt%uint64(len(links)-len(links)/2))
+			links = append(links[:at], append([]gen.NamedLink{dup}, links[at:]...)...)
+			root = gen.WriteDirLinks(st, links)
+			sc.Spec += " with a repeated name"
+			res.probe("plain-dir-with-repeated-name")
+		}
 		res.probe("plain-dir-node")
 	} else {
 		maxN := 120
@@ -364,7 +384,14 @@ func (c17) Run(ts *tape.Set, tier Tier) *Result {
 		return bytes.NewReader(data), nil
 	}
 	_ = parkedOn
-	unixfsnode.AddUnixFSReificationToLinkSystem(&ls)
+	// "bare": NodeReifier = Reify is ALL the link system has of this library
+	// (no named reifiers registered), and the shared node is made with the
+	// package constructors from a substrate loaded elsewhere - what an
+	// application does that never uses interpret-as selectors
+	bare := nodeReifier && !isPlain && shape.Intn(2) == 1
+	if !bare {
+		unixfsnode.AddUnixFSReificationToLinkSystem(&ls)
+	}
 	if nodeReifier {
 		ls.NodeReifier = unixfsnode.Reify
 		res.probe("linksystem-with-node-reifier")
@@ -375,7 +402,19 @@ func (c17) Run(ts *tape.Set, tier Tier) *Result {
 		// scheduler-aware link system
 		cw := &world.World{Store: st, LS: ls}
 		var err error
-		if isFile {
+		if bare {
+			res.probe("node-reifier-only-link-system")
+			plain := world.New(st, false)
+			var sub datamodel.Node
+			sub, err = plain.LoadRoot(root)
+			if err == nil {
+				if isFile {
+					shared, err = file.NewUnixFSFile(context.Background(), sub, &cw.LS)
+				} else {
+					shared, err = hamt.AttemptHAMTShardFromNode(context.Background(), sub, &cw.LS)
+				}
+			}
+		} else if isFile {
 			shared, _, err = openFile(cw, root, 1)
 		} else {
 			shared, err = cw.Reify(root)
